@@ -18,6 +18,7 @@ def gen_program(rng, length):
     kinds = ["c", "n", "u", "j"]
     horizon = None
     entries = {}
+    skew = rng.random() < 0.5
     for _ in range(length):
         r = rng.random()
         if r < 0.55:
@@ -26,11 +27,15 @@ def gen_program(rng, length):
                 ops.append("commit %d %d r" % (idx, ts))      # raft-internal entry: index gap for the FSM
                 continue
             ts += rng.choice([1, 5, 60, 300, 700, 2000]) * S
+            ets = ts
+            if skew and rng.random() < 0.2:
+                # timestamps are assigned by whichever node is leader: not monotonic across leader changes
+                ets = ts - rng.choice([1, 30, 400, 700, 2500]) * S
             k = kinds.pop(0) if kinds else rng.choice(["p", "p", "p", "n", "j", "c", "x1800", "x60", "x0", "x600"])
             if k == "c" and not kinds:
                 kinds = ["n", "u", "j"]
-            ops.append("commit %d %d %s" % (idx, ts, k))
-            entries[idx] = ts
+            ops.append("commit %d %d %s" % (idx, ets, k))
+            entries[idx] = ets
         elif r < 0.75:
             # compaction time: somewhere around the recent entries, sometimes far in the future (everything old)
             now = ts + rng.choice([0, 5, 11, 100, 605, 615, 1000, 1805, 1815, 5000, 100000]) * S
